@@ -1,6 +1,6 @@
 (* C14 -- cyclic models are rejected, never silently skipped. *)
 From Coq Require Import List Arith Bool Permutation.
-From MP Require Import Model.Sched Proofs.SchedProofs Proofs.SchedTop Proofs.SchedBlame.
+From MP Require Import Model.Sched Proofs.SchedProofs Proofs.SchedTop Proofs.SchedBlame Proofs.SchedCycle.
 Import ListNotations.
 
 (* any graph size (the property asks for <= 5), self-loops, cycles with tails, separate acyclic components,
@@ -35,6 +35,11 @@ Theorem C14_rejection_is_order_free : forall P P', Permutation P P' -> NoDup (na
   find_cycle P = None -> find_cycle P' = None.
 Proof. exact rejection_order_irrelevant. Qed.
 
+(* rejection is sound as well as complete: the pre-pass reports a recursive model exactly when the reference
+   graph has a cycle -- any program, any size, duplicate names and dangling references included *)
+Theorem C14_rejected_iff_cyclic : forall P, (exists n, find_cycle P = Some n) <-> has_cycle P.
+Proof. exact rejected_iff_cyclic. Qed.
+
 Example C14_example :
   let P := [ {| nm := 0; rl := [(true, 1)] |}; {| nm := 1; rl := [(false, 2)] |}; {| nm := 2; rl := [(true, 1)] |};
              {| nm := 3; rl := [] |} ] in
@@ -48,3 +53,4 @@ Print Assumptions C14_only_cycles_rejected.
 Print Assumptions C14_names_a_command.
 Print Assumptions C14_accepted_iff_ranked.
 Print Assumptions C14_rejection_is_order_free.
+Print Assumptions C14_rejected_iff_cyclic.
